@@ -22,7 +22,7 @@ import pydsdl
 
 from . import api, dump, engine, ws
 
-TOKENS = ("qqa", "qql")
+TOKENS = ("qqa", "qqb", "qql")
 _counter = [0]
 
 
@@ -44,13 +44,21 @@ def _unrename(obj, suffix: str):
     return json.loads(s)
 
 
-def run_step(step: dict, suffix: str, base=None, raw: bool = False):
+def run_step(step: dict, suffix: str, base=None, raw: bool = False, shared_lists: dict | None = None):
     """Executes one step under the given name suffix. Returns (canonical outcome, raw types or None, base directory)."""
     own_base = base is None
     if own_base:
         base = ws.fresh()
     files = {_rename(k, suffix): (_rename(v, suffix) if isinstance(v, str) else v) for k, v in step["files"].items()}
-    ws.write_tree(base, files)
+    # files that already hold exactly this text are left UNTOUCHED (same inode, size and modification time as when an earlier
+    # step of the history read them)
+    todo = {}
+    for k, v in files.items():
+        p = base / k
+        data = v if isinstance(v, bytes) else v.encode("utf-8")
+        if not (p.exists() and p.read_bytes() == data):
+            todo[k] = v
+    ws.write_tree(base, todo)
     for d in [step["root"]] + list(step.get("lookups", [])):
         (base / _rename(d, suffix)).mkdir(parents=True, exist_ok=True)
     prints = []
@@ -62,6 +70,9 @@ def run_step(step: dict, suffix: str, base=None, raw: bool = False):
     try:
         with engine.deadline(30):
             lookups = [base / _rename(x, suffix) for x in step.get("lookups", [])]
+            if shared_lists is not None:
+                # ONE list object per designated set of lookup directories for the whole history, never re-initialised
+                lookups = shared_lists.setdefault(tuple(str(x) for x in lookups), lookups)
             if step["op"] == "rn":
                 res = pydsdl.read_namespace(base / _rename(step["root"], suffix), lookups, handler, allow_unregulated_fixed_port_id=bool(step.get("allow")))
                 out = {"ok": [dump.composite(t) for t in res], "paths": [api.rel(base, t.source_file_path) for t in res]}
@@ -89,14 +100,17 @@ def run_history(steps: list[dict], flavour: str = "two-dirs", raw: bool = False)
     suffix = _fresh_suffix()
     out = []
     bases = []
-    shared = ws.fresh() if flavour == "edited" else None
+    shared = ws.fresh() if flavour in ("edited", "shared-arguments") else None
+    shared_lists = {} if flavour == "shared-arguments" else None
     try:
         for st in steps:
             if shared is not None:
-                # remove the definition files of the previous step so that the tree is exactly this step's
+                # remove the definition files that are not part of this step so that the tree is exactly this step's
+                keep = {_rename(k, suffix) for k in st["files"]}
                 for p in list(shared.rglob("*.dsdl")) + list(shared.rglob("*.uavcan")):
-                    p.unlink()
-            o, r, b = run_step(st, suffix, base=shared, raw=raw)
+                    if str(p.relative_to(shared)) not in keep:
+                        p.unlink()
+            o, r, b = run_step(st, suffix, base=shared, raw=raw, shared_lists=shared_lists)
             if shared is None:
                 bases.append(b)
             out.append((o, r))
@@ -237,7 +251,25 @@ def minor_version_histories():
         yield {"family": "minor-versions", "a": la, "b": lb}, [sa, sb]
 
 
+# One list object of lookup directories handed to several calls with different roots (an application that keeps its lookup list)
+def shared_argument_histories():
+    files = {"qqa/A.1.0.dsdl": "uint8 a\n@sealed\n", "qqb/B.1.0.dsdl": "qqa.A.1.0 a\n@sealed\n", "qqb/C.1.0.dsdl": "qql.L.1.0 l\n@sealed\n", "qql/L.1.0.dsdl": "@sealed\n", "qqa/D.1.0.dsdl": "qqb.C.1.0 c\n@sealed\n"}
+    calls = [("rn", "qqa", None), ("rn", "qqb", None), ("rf", "qqb", ["qqb/B.1.0.dsdl"]), ("rf", "qqb", ["qqb/C.1.0.dsdl"]), ("rf", "qqa", ["qqa/A.1.0.dsdl"])]
+    steps = []
+    for op, root, targets in calls:
+        st = {"files": files, "op": op, "root": root, "lookups": ["qql"]}
+        if targets:
+            st["targets"] = targets
+        steps.append(st)
+    for i, j in itertools.permutations(range(len(steps)), 2):
+        yield {"family": "shared-arguments", "a": i, "b": j, "flavour": "shared-arguments"}, [steps[i], steps[j]]
+    for i, j, k in itertools.permutations(range(len(steps)), 3):
+        if i < 2:
+            yield {"family": "shared-arguments", "a": i, "b": j, "c": k, "flavour": "shared-arguments"}, [steps[i], steps[j], steps[k]]
+
+
 FAMILIES = {
+    "shared-arguments": shared_argument_histories,
     "minor-versions": minor_version_histories,
     "nested-revisions": nested_revision_histories,
     "faults": fault_histories,
@@ -276,6 +308,8 @@ def check_history(label: dict, R, project, fingerprint: str, clause: str, flavou
     steps = steps_of(label)
     if "same_dir" in label:
         flavours = ("edited",) if label["same_dir"] else ("two-dirs",)
+    if "flavour" in label:
+        flavours = (label["flavour"],)
     for fl in flavours:
         outs = run_history(steps, fl)
         for k, (o, _r) in enumerate(outs):
